@@ -126,9 +126,7 @@ def runStreamImpl : Prog α → Chunks → Except Err α × Chunks
 def finishFrameImpl (res : FrameRes) (f : FR) : FrameRes × Chunks :=
   let d := f.drain
   if d.1 then (res, d.2)
-  else match res with
-    | .ok _ => (.fail .ueof, d.2)
-    | r => (r, d.2)
+  else if res.continues then (.fail .ueof, d.2) else (res, d.2)
 
 /-- `packetizer.NextFrame` through the reader stack. -/
 def nextFrameImpl (max : Nat) (ctx : Ctx) (cs : Chunks) : FrameRes × Chunks :=
